@@ -17,6 +17,6 @@ def run(ctx: Ctx):
                         "z quantiles from statistics.NormalDist (trusted)",
                         "the thresholds at which a moment statistic becomes defined (n > 1, 2, 3) follow the documented definitions"]
     q = ctx.quick
-    sc.check_kind(ctx, "tally", 5 if q else 6)
+    sc.check_kind(ctx, "tally", 5 if q else 6, all_paths=True)
     sc.check_kind(ctx, "tally", 4 if q else 5, vals=(0, 2, 6), label="Stats[tally] values {0,2,6}")
-    sc.check_kind(ctx, "counter", 5 if q else 6)
+    sc.check_kind(ctx, "counter", 5 if q else 6, all_paths=True)
